@@ -65,7 +65,17 @@ def main(argv):
                 obs = r
         except Exception as e:  # any escape from the harness or the code under test
             tb = traceback.format_exc()
-            in_repo = any(pkg_path in ln for ln in tb.splitlines()[-12:])
+            # whose code was running when it was raised: the deepest frame that belongs either to the repository or to this
+            # harness decides (frames of numpy/pandas/stdlib below it are on behalf of that caller)
+            in_repo = False
+            tbo = e.__traceback__
+            while tbo is not None:
+                fn = tbo.tb_frame.f_code.co_filename
+                if fn.startswith(pkg_path):
+                    in_repo = True
+                elif fn.startswith(env.VERIF):
+                    in_repo = False
+                tbo = tbo.tb_next
             if isinstance(e, RecursionError):  # the frame that overflows is arbitrary; what matters is who recursed
                 in_repo = tb.count(pkg_path) > tb.count(os.path.join(env.VERIF, ""))
             obs.violate(
